@@ -20,7 +20,7 @@ def gen_plan(rng, tier):
     if r < 0.16:
         from . import c18_archive
         return c18_archive.gen_plan(rng, tier)
-    mode = "cuts" if r < 0.66 else ("crash" if r < 0.80 else "live")
+    mode = "cuts" if r < 0.52 else ("crash" if r < 0.64 else "live")      # live runs are cheap and reach the rarest defects (15c, 15j)
     if os.environ.get("VSIM_C18_MODE"):        # experiments only (not used by the registered commands)
         mode = os.environ["VSIM_C18_MODE"]
     if mode == "live":
